@@ -83,4 +83,14 @@ Definition clause_inv (af : fw) (e : denc) (C : cnf) (N : nat) : Prop :=
     (forall c, In c C -> dead_clause dv c \/
                          exists a, has_argument_with_id L af a = true /\ In c (group e a (atk a))).
 
+(* the updates of a history that are VALID at their moment (the redundant and the rejected ones dropped) *)
+Fixpoint effective (f : fw) (os : list (op L)) : list (op L) :=
+  match os with
+  | [] => []
+  | o :: r => match classify L leqb (abs L f) o with
+              | UValid => o :: effective (fst (step L leqb f o)) r
+              | _ => effective f r
+              end
+  end.
+
 End Defs.
